@@ -3,7 +3,9 @@ import LeptosModel.Gen.Transfer
 /-!
 # C12 — data handed from server to client arrives intact and inert
 
-Property theorems about `Model/Transfer`.  `p g : Nat → Bool` are the two Unicode
+Property theorems about `Model/Transfer` — the code **after** the repair of F-C12-1/2/3 (helper
+`js_string`); the printers before the repair are kept as `…Old` with the three witnesses as
+regression theorems.  `p g : Nat → Bool` are the two Unicode
 tables of rustc (`is_printable`, `Grapheme_Extend`); every theorem that mentions them
 holds for **every** instantiation.  `Scalar s` is the invariant of a Rust `String`.
 -/
@@ -354,14 +356,14 @@ theorem hexLo_ne_lt : ∀ d, d < 16 → hexLo d ≠ 60 := by decide
 
 theorem jsFix_cons_raw (c : Nat) (tl : Str) (h1 : c ≠ 60) (h2 : c ≠ 92) :
     jsFix (c :: tl) = c :: jsFix tl := by
-  rw [jsFix]; simp [h1, h2]
+  rw [jsFix.eq_def]; simp [h1, h2]
 
 theorem jsFix_cons_lt (tl : Str) : jsFix (60 :: tl) = kLtEsc ++ jsFix tl := by
-  rw [jsFix]; simp
+  rw [jsFix.eq_def]; simp
 
 theorem jsFix_cons_bs (d : Nat) (rest : Str) :
     jsFix (92 :: d :: rest) = (if d = 48 then kNulEsc else [92, d]) ++ jsFix rest := by
-  rw [jsFix]; simp
+  rw [jsFix.eq_def]; simp
 
 /-- characters the scanner copies -/
 theorem jsFix_raw (l : Str) (h : ∀ x ∈ l, x ≠ 60 ∧ x ≠ 92) (T : Str) :
@@ -425,7 +427,7 @@ theorem jsFix_debugBody (p g : Nat → Bool) (s T : Str) :
 /-- `js_string(s)` is `"` + the per-character output + `"` -/
 theorem jsString_eq (p g : Nat → Bool) (s : Str) : jsString p g s = 34 :: (jsBody p g s ++ [34]) := by
   have := jsFix_debugBody p g s [34]
-  have h34 : jsFix [34] = [34] := by simp [jsFix_cons_raw, jsFix]
+  have h34 : jsFix [34] = [34] := by simp [jsFix]
   rw [jsString, rustDebugStr, jsFix_cons_raw 34 _ (by decide) (by decide), this, h34]
 
 theorem hex4_zero (T : Str) : hex4 (48 :: 48 :: 48 :: 48 :: T) = some 0 := by
@@ -494,7 +496,7 @@ theorem jsStrBody_jsBody (p g : Nat → Bool) (s : Str) (hs : ∀ c ∈ s, c < 1
 theorem jsStrLit_jsString (p g : Nat → Bool) (s : Str) (hs : Scalar s) (r : Str) :
     jsStrLit (jsString p g s ++ r) = some (s, r) := by
   have h := jsStrBody_jsBody p g s (fun c hc => (hs c hc).1) r
-  simp only [jsString_eq, List.cons_append, List.append_assoc, List.singleton_append,
+  simp only [jsString_eq, List.cons_append, List.append_assoc,
     List.nil_append, jsStrLit, if_true, h, joinSurr_scalar s hs]
 
 /-- **round trip (full)**: for every payload or error-message string (any Unicode scalar values,
@@ -744,7 +746,7 @@ theorem C12_incomplete_chunk_inert (ids : List Nat) : Inert (incompleteChunk ids
 
 /-- every chunk `Srv.poll` can return is inert, whatever the state of the server -/
 theorem C12_every_polled_chunk_inert (p g : Nat → Bool) (s : Srv) (text : Str)
-    (hsync : s.sync = []) (h : (s.poll p g).1 = .chunk text) (hph : ∀ c, s.phase ≠ .initial c) :
+    (h : (s.poll p g).1 = .chunk text) (hph : ∀ c, s.phase ≠ .initial c) :
     Inert text := by
   unfold Srv.poll at h
   cases hp : s.phase with
@@ -1293,11 +1295,13 @@ example :
 
 /-! ## E. the model's statement printers are the source's `write!` calls
 
-`Gen/Transfer.lean` is regenerated from hydration_context/src/ssr.rs on every run: every
-`write!` that prints an argument with `{:?}`, with the `.replace` calls applied to that argument.
-The theorems below re-check, against what the source says *now*, (1) that there are exactly the
-four sites of `Site`, (2) which of them replace `<` and by what, (3) that the model's printers
-are those format strings with their holes filled. -/
+`Gen/Transfer.lean` is regenerated from hydration_context/src/ssr.rs on every run: the two rewrites
+of the helper `js_string`, every `write!` that prints a `js_string(..)` argument, and the number
+of `{:?}` holes / `.replace(` calls anywhere else.  The theorems below re-check, against what the
+source says *now*, (1) that the helper rewrites exactly `<` ↦ `\u003c` and `\0` ↦ `\u0000`, as
+`jsFix` does, (2) that there are exactly the four sites of `Site` and that no string is
+debug-printed outside the helper or rewritten before formatting, (3) that the model's printers are
+those format strings with their holes filled. -/
 
 /-- length of the hole body after a `{`: `}` or `:?}` -/
 def holeLen : Str → Option Nat
@@ -1322,45 +1326,50 @@ def fillGo : Nat → Str → List Str → Str
 
 def fillFmt (fmt : Str) (args : List Str) : Str := fillGo 0 fmt args
 
-/-- (fn, site) in source order -/
-def sourceSites : List (Str × Site) :=
-  [ ([112, 101, 110, 100, 105, 110, 103, 95, 100, 97, 116, 97], .initError),    -- pending_data
-    ([112, 111, 108, 108, 95, 110, 101, 120, 116], .asyncData),                  -- poll_next
-    ([112, 111, 108, 108, 95, 110, 101, 120, 116], .asyncError),                 -- poll_next
-    ([119, 114, 105, 116, 101, 95, 116, 111, 95, 98, 117, 102], .syncData) ]     -- write_to_buf
+/-- (fn, site, index of the hole filled by `js_string`) in source order -/
+def sourceSites : List (Str × Site × Nat) :=
+  [ ([112, 101, 110, 100, 105, 110, 103, 95, 100, 97, 116, 97], .initError, 2),    -- pending_data
+    ([112, 111, 108, 108, 95, 110, 101, 120, 116], .asyncData, 1),                  -- poll_next
+    ([112, 111, 108, 108, 95, 110, 101, 120, 116], .asyncError, 2),                 -- poll_next
+    ([119, 114, 105, 116, 101, 95, 116, 111, 95, 98, 117, 102], .syncData, 1) ]     -- write_to_buf
 
 /-- the format string the model assumes at a site -/
 def siteFormat : Site → Str
-  | .initError => [91, 123, 125, 44, 32, 123, 125, 44, 32, 123, 58, 63, 125, 93, 44]
-  | .asyncData => kResolvedIdx ++ [123, 125] ++ kIdxEq ++ [123, 58, 63, 125, 59]
-  | .asyncError => kErrorsPush ++ [123, 125, 44, 32, 123, 125, 44, 32, 123, 58, 63, 125, 93, 41, 59]
-  | .syncData => [123, 125, 58, 32, 123, 58, 63, 125]
+  | .initError => [91, 123, 125, 44, 32, 123, 125, 44, 32, 123, 125, 93, 44]
+  | .asyncData => kResolvedIdx ++ [123, 125] ++ kIdxEq ++ [123, 125, 59]
+  | .asyncError => kErrorsPush ++ [123, 125, 44, 32, 123, 125, 44, 32, 123, 125, 93, 41, 59]
+  | .syncData => [123, 125, 58, 32, 123, 125]
 
-/-- **the four emission sites and their `<` replacement are what the source says** (data sites
-replace `<` by `<`, error sites replace nothing) -/
+/-- **the emission sites and the helper are what the source says**: four `write!` calls print
+a `js_string(..)` argument, with the formats the model assumes; no `{:?}` hole exists outside the
+helper and nothing is `.replace`d before formatting; the helper rewrites `<` to `kLtEsc` and the
+escape `\0` to `kNulEsc` -/
 theorem C12_sites_match_source :
-    Leptos.Gen.Transfer.debugSites =
-      sourceSites.map fun (fn, site) =>
-        (fn, siteFormat site, if siteReplacesLt site then [(60, kLtEsc)] else []) := by
+    Leptos.Gen.Transfer.literalSites =
+      sourceSites.map (fun x => (x.1, siteFormat x.2.1, x.2.2)) ∧
+    Leptos.Gen.Transfer.ltRewrite = (60, kLtEsc) ∧
+    Leptos.Gen.Transfer.escRewrite = (48, kNulEsc) ∧
+    Leptos.Gen.Transfer.strayDebugHoles = 0 ∧
+    Leptos.Gen.Transfer.replaceCalls = 0 := by
   decide
 
 theorem C12_dataStmt_is_format (p g : Nat → Bool) (id : Nat) (v : Str) :
-    dataStmt p g id v = fillFmt (siteFormat .asyncData) [decDigits id, emitLit p g .asyncData v] := by
-  simp [dataStmt, siteFormat, fillFmt, fillGo, holeLen, kResolvedIdx, kIdxEq]
+    dataStmt p g id v = fillFmt (siteFormat .asyncData) [decDigits id, jsString p g v] := by
+  simp [dataStmt, emitLit, siteFormat, fillFmt, fillGo, holeLen, kResolvedIdx, kIdxEq]
 
 theorem C12_errPushStmt_is_format (p g : Nat → Bool) (b e : Nat) (m : Str) :
     errPushStmt p g b e m
-      = fillFmt (siteFormat .asyncError) [decDigits b, decDigits e, emitLit p g .asyncError m] := by
-  simp [errPushStmt, errTupleBody, siteFormat, fillFmt, fillGo, holeLen, kErrorsPush]
+      = fillFmt (siteFormat .asyncError) [decDigits b, decDigits e, jsString p g m] := by
+  simp [errPushStmt, errTupleBody, emitLit, siteFormat, fillFmt, fillGo, holeLen, kErrorsPush]
 
 theorem C12_errTuple_is_format (p g : Nat → Bool) (b e : Nat) (m : Str) :
     errTuple p g .initError b e m ++ [44]
-      = fillFmt (siteFormat .initError) [decDigits b, decDigits e, emitLit p g .initError m] := by
-  simp [errTuple, errTupleBody, siteFormat, fillFmt, fillGo, holeLen]
+      = fillFmt (siteFormat .initError) [decDigits b, decDigits e, jsString p g m] := by
+  simp [errTuple, errTupleBody, emitLit, siteFormat, fillFmt, fillGo, holeLen]
 
 theorem C12_syncEntry_is_format (p g : Nat → Bool) (id : Nat) (v : Str) :
-    syncEntry p g id v = fillFmt (siteFormat .syncData) [decDigits id, emitLit p g .syncData v] := by
-  simp [syncEntry, siteFormat, fillFmt, fillGo, holeLen]
+    syncEntry p g id v = fillFmt (siteFormat .syncData) [decDigits id, jsString p g v] := by
+  simp [syncEntry, emitLit, siteFormat, fillFmt, fillGo, holeLen]
 
 /-! ## F. the chunk, evaluated as JavaScript, assigns every value under its id -/
 
@@ -1438,19 +1447,15 @@ theorem parseNat_decDigits (n : Nat) (r : Str) (h : firstNotDec r) :
     simp only [List.cons_append] at this
     rw [this, ← hds, digitsVal_decFuel n n (Nat.le_refl n), readDigits_stop n r h]
 
-/-- hypotheses under which a string survives `{:?}` → JavaScript (negation of class `nul-octal`) -/
-def Clean (s : Str) : Prop := Scalar s ∧ nulOct s = false
-
-theorem evalStmt_dataStmt (p g : Nat → Bool) (id : Nat) (v : Str) (hv : Clean v) (R : Str)
+theorem evalStmt_dataStmt (p g : Nat → Bool) (id : Nat) (v : Str) (hv : Scalar v) (R : Str)
     (st : JsState) :
     evalStmt (dataStmt p g id v ++ R) st
-      = some ({ st with resolved := st.resolved ++ [(id, replaceLt v)] }, R) := by
+      = some ({ st with resolved := st.resolved ++ [(id, v)] }, R) := by
   have hshape : dataStmt p g id v ++ R
-      = kResolvedIdx ++ (decDigits id ++ (kIdxEq ++ (rustDebugStr p g (replaceLt v) ++ (59 :: R)))) := by
-    simp [dataStmt, emitLit, siteReplacesLt, List.append_assoc]
-  have hlit := jsStrLit_rustDebugStr p g (replaceLt v) (scalar_replaceLt v hv.1)
-    (nulOct_replaceLt v hv.2) (59 :: R)
-  have hnat := parseNat_decDigits id (kIdxEq ++ (rustDebugStr p g (replaceLt v) ++ (59 :: R)))
+      = kResolvedIdx ++ (decDigits id ++ (kIdxEq ++ (jsString p g v ++ (59 :: R)))) := by
+    simp [dataStmt, emitLit, List.append_assoc]
+  have hlit := jsStrLit_jsString p g v hv (59 :: R)
+  have hnat := parseNat_decDigits id (kIdxEq ++ (jsString p g v ++ (59 :: R)))
     (by simp [kIdxEq, firstNotDec, isDec])
   rw [hshape]
   unfold evalStmt
@@ -1462,11 +1467,11 @@ theorem dataStmt_cons (p g : Nat → Bool) (id : Nat) (v : Str) (X : Str) :
   simp [dataStmt, kResolvedIdx]
 
 theorem evalStmts_dataStmts (p g : Nat → Bool) (ready : List (Nat × Str))
-    (h : ∀ r ∈ ready, Clean r.2) (R : Str) :
+    (h : ∀ r ∈ ready, Scalar r.2) (R : Str) :
     ∀ (f : Nat) (st : JsState), ready.length ≤ f →
       evalStmts (f + 1) (dataStmts p g ready ++ R) st
         = evalStmts (f + 1 - ready.length) R
-            { st with resolved := st.resolved ++ ready.map fun r => (r.1, replaceLt r.2) } := by
+            { st with resolved := st.resolved ++ ready } := by
   induction ready with
   | nil => intro f st _; simp [dataStmts]
   | cons a rest ih =>
@@ -1480,7 +1485,7 @@ theorem evalStmts_dataStmts (p g : Nat → Bool) (ready : List (Nat × Str))
     rw [htl] at hev ⊢
     simp only [evalStmts, hev]
     rw [ih (fun r hr => h r (by simp [hr])) f' _ (by omega)]
-    simp only [List.map_cons, List.append_assoc, List.singleton_append, List.length_cons]
+    simp only [List.append_assoc, List.singleton_append, List.length_cons]
     congr 1
     omega
 
@@ -1498,32 +1503,32 @@ value in order, exactly one assignment under the id the server used, whose value
 with `<` replaced (= the payload itself when it has no `<`) — for all ids, all payloads without
 NUL+octal-digit, every instantiation of the Unicode tables -/
 theorem C12_chunk_transfer_data (p g : Nat → Bool) (ready : List (Nat × Str))
-    (h : ∀ r ∈ ready, Clean r.2) (st : JsState) :
+    (h : ∀ r ∈ ready, Scalar r.2) (st : JsState) :
     evalChunk (asyncChunk p g ready []) st
-      = some { st with resolved := st.resolved ++ ready.map fun r => (r.1, replaceLt r.2) } := by
+      = some { st with resolved := st.resolved ++ ready } := by
   have hlen := dataStmts_length p g ready
   have := evalStmts_dataStmts p g ready h [] (dataStmts p g ready).length st hlen
   simp only [List.append_nil] at this
   simp only [evalChunk, asyncChunk, errStmts, List.append_nil, this]
   cases hk : (dataStmts p g ready).length + 1 - ready.length <;> simp [evalStmts]
 
-theorem parseErrTuple_body (p g : Nat → Bool) (site : Site) (hsite : siteReplacesLt site = false)
-    (b e : Nat) (m : Str) (hm : Clean m) (R : Str) :
+theorem parseErrTuple_body (p g : Nat → Bool) (site : Site)
+    (b e : Nat) (m : Str) (hm : Scalar m) (R : Str) :
     parseErrTuple (errTupleBody p g site b e m ++ R) = some ((b, e, m), R) := by
   have hshape : errTupleBody p g site b e m ++ R
-      = decDigits b ++ ([44, 32] ++ (decDigits e ++ ([44, 32] ++ (rustDebugStr p g m ++ (93 :: R))))) := by
-    simp [errTupleBody, emitLit, hsite, List.append_assoc]
-  have hlit := jsStrLit_rustDebugStr p g m hm.1 hm.2 (93 :: R)
-  have hb := parseNat_decDigits b ([44, 32] ++ (decDigits e ++ ([44, 32] ++ (rustDebugStr p g m ++ (93 :: R)))))
+      = decDigits b ++ ([44, 32] ++ (decDigits e ++ ([44, 32] ++ (jsString p g m ++ (93 :: R))))) := by
+    simp [errTupleBody, emitLit, List.append_assoc]
+  have hlit := jsStrLit_jsString p g m hm (93 :: R)
+  have hb := parseNat_decDigits b ([44, 32] ++ (decDigits e ++ ([44, 32] ++ (jsString p g m ++ (93 :: R)))))
     (by simp [firstNotDec, isDec])
-  have he := parseNat_decDigits e ([44, 32] ++ (rustDebugStr p g m ++ (93 :: R)))
+  have he := parseNat_decDigits e ([44, 32] ++ (jsString p g m ++ (93 :: R)))
     (by simp [firstNotDec, isDec])
   rw [hshape]
   unfold parseErrTuple
   simp only [hb, stripPrefix_append, he, hlit]
   simp [stripPrefix]
 
-theorem evalStmt_errPushStmt (p g : Nat → Bool) (b e : Nat) (m : Str) (hm : Clean m) (R : Str)
+theorem evalStmt_errPushStmt (p g : Nat → Bool) (b e : Nat) (m : Str) (hm : Scalar m) (R : Str)
     (st : JsState) :
     evalStmt (errPushStmt p g b e m ++ R) st
       = some ({ st with errors := st.errors ++ [(b, e, m)] }, R) := by
@@ -1532,7 +1537,7 @@ theorem evalStmt_errPushStmt (p g : Nat → Bool) (b e : Nat) (m : Str) (hm : Cl
     simp [errPushStmt, List.append_assoc]
   have hno : ∀ X, stripPrefix kResolvedIdx (kErrorsPush ++ X) = none := by
     intro X; simp [stripPrefix, kResolvedIdx, kErrorsPush]
-  have ht := parseErrTuple_body p g .asyncError rfl b e m hm (41 :: 59 :: R)
+  have ht := parseErrTuple_body p g .asyncError b e m hm (41 :: 59 :: R)
   rw [hshape]
   unfold evalStmt
   simp only [hno, stripPrefix_append, ht]
@@ -1542,10 +1547,10 @@ theorem errPushStmt_cons (p g : Nat → Bool) (b e : Nat) (m : Str) (X : Str) :
     ∃ tl, errPushStmt p g b e m ++ X = 95 :: tl := by
   simp [errPushStmt, kErrorsPush]
 
-/-- all messages survive `{:?}` → JavaScript -/
-def ErrsClean (errs : List ErrRec) : Prop := ∀ r ∈ errs, Clean r.2.2
+/-- all messages are Rust strings -/
+def ErrsScalar (errs : List ErrRec) : Prop := ∀ r ∈ errs, Scalar r.2.2
 
-theorem evalStmts_errStmts (p g : Nat → Bool) (errs : List ErrRec) (h : ErrsClean errs) (R : Str) :
+theorem evalStmts_errStmts (p g : Nat → Bool) (errs : List ErrRec) (h : ErrsScalar errs) (R : Str) :
     ∀ (f : Nat) (st : JsState), errs.length ≤ f →
       evalStmts (f + 1) (errStmts p g errs ++ R) st
         = evalStmts (f + 1 - errs.length) R { st with errors := st.errors ++ errs } := by
@@ -1579,9 +1584,9 @@ theorem errStmts_length (p g : Nat → Bool) (errs : List ErrRec) :
 `C12_script_inert_*`): every resolved value is assigned once under its id, every error is pushed
 once with its boundary id, error id and exact message -/
 theorem C12_chunk_transfer (p g : Nat → Bool) (ready : List (Nat × Str)) (errs : List ErrRec)
-    (h : ∀ r ∈ ready, Clean r.2) (he : ErrsClean errs) (st : JsState) :
+    (h : ∀ r ∈ ready, Scalar r.2) (he : ErrsScalar errs) (st : JsState) :
     evalChunk (asyncChunk p g ready errs) st
-      = some { st with resolved := st.resolved ++ ready.map fun r => (r.1, replaceLt r.2),
+      = some { st with resolved := st.resolved ++ ready,
                        errors := st.errors ++ errs } := by
   have h1 := dataStmts_length p g ready
   have h2 := errStmts_length p g errs
@@ -1593,7 +1598,7 @@ theorem C12_chunk_transfer (p g : Nat → Bool) (ready : List (Nat × Str)) (err
     ⟨(dataStmts p g ready).length + (errStmts p g errs).length - ready.length, by omega, by omega⟩
   rw [hf.1]
   have hs := evalStmts_errStmts p g errs he [] f
-    { st with resolved := st.resolved ++ ready.map fun r => (r.1, replaceLt r.2) } hf.2
+    { st with resolved := st.resolved ++ ready } hf.2
   simp only [List.append_nil] at hs
   rw [hs]
   cases hk : f + 1 - errs.length <;> simp [evalStmts]
@@ -1606,7 +1611,7 @@ theorem evalStmts_step (f : Nat) (s : Str) (st st' : JsState) (r : Str) (hne : s
   | nil => exact absurd rfl hne
   | cons c cs => simp [evalStmts, h]
 
-theorem parseErrList_errList (p g : Nat → Bool) (errs : List ErrRec) (h : ErrsClean errs) (R : Str) :
+theorem parseErrList_errList (p g : Nat → Bool) (errs : List ErrRec) (h : ErrsScalar errs) (R : Str) :
     ∀ f, errs.length < f →
       parseErrList f (errList p g errs ++ (kCloseList ++ R)) = some (errs, R) := by
   induction errs with
@@ -1622,7 +1627,7 @@ theorem parseErrList_errList (p g : Nat → Bool) (errs : List ErrRec) (h : Errs
     have hshape : errList p g ((b, e, m) :: rest) ++ (kCloseList ++ R)
         = 91 :: (errTupleBody p g .initError b e m ++ (44 :: (errList p g rest ++ (kCloseList ++ R)))) := by
       simp [errList, errTuple, List.append_assoc]
-    have ht := parseErrTuple_body p g .initError rfl b e m (h (b, e, m) (by simp))
+    have ht := parseErrTuple_body p g .initError b e m (h (b, e, m) (by simp))
       (44 :: (errList p g rest ++ (kCloseList ++ R)))
     have ih' := ih (fun r hr => h r (by simp [hr])) f' (by omega)
     have hno : ∀ X, stripPrefix kCloseList (91 :: X) = none := by
@@ -1688,7 +1693,7 @@ theorem numList_length (ns : List Nat) : ns.length ≤ (numList ns).length := by
 /-- **transfer, first chunk** (with the sync buffer empty, as it always is): it resets the
 resolved array, and the client finds exactly the registered errors and the pending ids -/
 theorem C12_initial_chunk_transfer (p g : Nat → Bool) (errs : List ErrRec) (pend : List Nat)
-    (he : ErrsClean errs) (st : JsState) :
+    (he : ErrsScalar errs) (st : JsState) :
     evalChunk (initialChunk p g [] errs pend) st
       = some { resolved := [], errors := errs, pending := pend, incomplete := st.incomplete } := by
   -- the four statements
@@ -1777,21 +1782,17 @@ theorem C12_incomplete_chunk_transfer (ids : List Nat) (st : JsState) :
   rw [hshape, evalStmts_step _ _ st _ _ (by simp [kIncompleteInit]) e]
   cases (kIncompleteInit ++ (numList ids ++ (kCloseList ++ []))).length <;> simp [evalStmts]
 
-/-- the client then reads each id's value (ids distinct: last assignment = only assignment) -/
-theorem C12_read_back_single (p g : Nat → Bool) (id : Nat) (v : Str) (hv : Clean v)
-    (hl : hasLt v = false) :
+/-- the client then reads the id's value: exactly the string that was written -/
+theorem C12_read_back_single (p g : Nat → Bool) (id : Nat) (v : Str) (hv : Scalar v) :
     (evalChunk (asyncChunk p g [(id, v)] []) JsState.empty).bind (fun st => st.read id) = some v := by
   rw [C12_chunk_transfer_data p g [(id, v)] (by intro r hr; simp at hr; subst hr; exact hv)]
-  simp [JsState.empty, JsState.read, replaceLt_noLt v hl]
+  simp [JsState.empty, JsState.read]
 
-example : Clean [0, 56, 34, 92, 8232] := by
-  refine ⟨?_, by decide⟩
-  intro c hc; simp at hc; omega
+/-! ## G. the JSON codec (`Resource::new`) end to end
 
-/-! ## G. the JSON codec (`Resource::new`) is immune to both data defects
-
-`JsonSerdeCodec::encode` never prints a raw NUL, and a `<` only inside a string token, where
-the `<` that the data site substitutes is itself a valid JSON escape for `<`. -/
+After the repair this is a corollary of `C12_roundtrip`.  Before it, JSON was the one encoding
+that survived: `JsonSerdeCodec::encode` never prints a raw NUL, and a `<` only inside a string
+token, where the `\\u003c` text the old data site substituted is itself a valid JSON escape. -/
 
 theorem replaceLt_append (a b : Str) : replaceLt (a ++ b) = replaceLt a ++ replaceLt b := by
   induction a with
@@ -1942,17 +1943,67 @@ theorem nulOct_of_noZero (s : Str) (h : ∀ x ∈ s, x ≠ 0) : nulOct s = false
     have : (c == 0) = false := by simpa using hc
     simp [nulOct, this, ih (fun x hx => h x (by simp [hx]))]
 
-/-- **JSON string values: full round trip, no hypothesis** — server `JsonSerdeCodec::encode`, the
-data site (`<` replacement, `{:?}`), the browser's string literal, client `JsonSerdeCodec::decode`:
-the client obtains exactly the string the server had, for every string and every
-instantiation of the Unicode tables -/
-theorem C12_json_string_roundtrip (p g : Nat → Bool) (site : Site) (hsite : siteReplacesLt site = true)
-    (s : Str) (hs : Scalar s) :
+/-- one serde_json-escaped character followed by the rest is decoded to that character -/
+theorem jsonStrBody_escChar_raw (c : Nat) (T : Str) (cs r : Str) (hT : jsonStrBody 0 T = some (cs, r)) :
+    jsonStrBody 0 (jsonEscChar c ++ T) = some (c :: cs, r) := by
+  unfold jsonEscChar
+  split
+  · next h => subst h; simp [jsonStrBody, jsonEscape, hT]
+  · split
+    · next h => subst h; simp [jsonStrBody, jsonEscape, hT]
+    · split
+      · next h => subst h; simp [jsonStrBody, jsonEscape, hT]
+      · split
+        · next h => subst h; simp [jsonStrBody, jsonEscape, hT]
+        · split
+          · next h => subst h; simp [jsonStrBody, jsonEscape, hT]
+          · split
+            · next h => subst h; simp [jsonStrBody, jsonEscape, hT]
+            · split
+              · next h => subst h; simp [jsonStrBody, jsonEscape, hT]
+              · next h34 h92 h8 h9 h10 h12 h13 =>
+                split
+                · next hlt =>
+                  have hsk := jsonStrBody_skip [117, 48, 48, hexLo (c / 16), hexLo (c % 16)] T
+                  simp only [List.length_cons, List.length_nil, List.cons_append, List.nil_append] at hsk
+                  simp only [List.cons_append, List.nil_append, jsonStrBody_backslash, jsonEscape,
+                    show (117 : Nat) ≠ 34 ∧ (117 : Nat) ≠ 92 ∧ (117 : Nat) ≠ 47 by decide]
+                  simp [hex4_ctrl c hlt T, hsk, hT]
+                · next hge =>
+                  have : ¬ c < 32 := hge
+                  simp [jsonStrBody, h34, h92, this, hT]
+
+theorem jsonStrBody_encBody_raw (s r : Str) :
+    jsonStrBody 0 (jsonEncBody s ++ 34 :: r) = some (s, r) := by
+  induction s with
+  | nil => simp [jsonEncBody, jsonStrBody]
+  | cons c cs ih =>
+    simp only [jsonEncBody, List.append_assoc]
+    exact jsonStrBody_escChar_raw c _ cs r ih
+
+/-- serde_json decodes what serde_json encodes (string values) -/
+theorem jsonStrDecode_encode (s : Str) (hs : Scalar s) : jsonStrDecode (jsonStrEncode s) = some s := by
+  have h := jsonStrBody_encBody_raw s []
+  simp [jsonStrEncode, jsonStrDecode, h, joinSurr_scalar s hs]
+
+/-- **JSON string values, end to end**: server `JsonSerdeCodec::encode`, the emission site
+(`js_string`), the browser's string literal, client `JsonSerdeCodec::decode`: the client obtains
+exactly the string the server had, for every string and every instantiation of the Unicode tables -/
+theorem C12_json_string_roundtrip (p g : Nat → Bool) (site : Site) (s : Str) (hs : Scalar s) :
     (jsDecodeStringLiteral (emitLit p g site (jsonStrEncode s))).bind jsonStrDecode = some s := by
   have hp := jsonStrEncode_props s hs
   have h1 : Scalar (jsonStrEncode s) := fun x hx => (hp x hx).2
+  rw [C12_roundtrip p g site _ h1]
+  exact jsonStrDecode_encode s hs
+
+/-- before the repair the JSON codec was the one encoding that survived both data defects -/
+theorem C12_old_json_string_roundtrip (p g : Nat → Bool) (site : Site) (hsite : siteReplacesLt site = true)
+    (s : Str) (hs : Scalar s) :
+    (jsDecodeStringLiteral (emitLitOld p g site (jsonStrEncode s))).bind jsonStrDecode = some s := by
+  have hp := jsonStrEncode_props s hs
+  have h1 : Scalar (jsonStrEncode s) := fun x hx => (hp x hx).2
   have h2 : nulOct (jsonStrEncode s) = false := nulOct_of_noZero _ (fun x hx => (hp x hx).1)
-  rw [C12_data_reads_replaced p g site hsite _ h1 h2]
+  rw [C12_old_data_reads_replaced p g site hsite _ h1 h2]
   exact C12_json_survives_replace s hs
 
 example : (jsDecodeStringLiteral (emitLit asciiPrintable noExtend .asyncData
